@@ -148,14 +148,18 @@ def mk_src(da, du, ver, obj=True):
 
 
 _BNAME = ["b"]  # name of m1's tracked option; the "m1" variant names the option like the data type it configures
+_MIX = [None]  # not None: m1 ALSO takes src's option u (same default, which is the value held here) but TRACKS it
 
 
 def mk_m1(db, ver, vconst, obj=True):
     import strax
 
     bname = _BNAME[0]
+    opts = [strax.Option(bname, default=db, track=True)]
+    if _MIX[0] is not None:
+        opts.append(strax.Option("u", default=_MIX[0], track=True))
 
-    @strax.takes_config(strax.Option(bname, default=db, track=True))
+    @strax.takes_config(*opts)
     class M1(strax.Plugin):
         provides = ("m1",); depends_on = ("src",); data_kind = "km1"; dtype = ctx.dt(D, obj)
         __version__ = ver
@@ -165,7 +169,7 @@ def mk_m1(db, ver, vconst, obj=True):
             for q in range(len(ksrc)):
                 r["time"][q], r["endtime"][q], r["id"][q] = ksrc["time"][q], ksrc["endtime"][q], ksrc["id"][q]
                 # the class's behaviour is identified by its version (vconst is a function of the version)
-                r["val"][q] = ksrc["val"][q] + 2 * self.config[bname] + 5 * vconst
+                r["val"][q] = ksrc["val"][q] + 2 * self.config[bname] + 5 * vconst + (11 * self.config["u"] if "u" in self.config else 0)
             return r
 
     return M1
@@ -198,16 +202,19 @@ def _vals(st, d):
     return [a["val"][q] for q in range(len(a))]
 
 
-def sym_history(ops, obj=True, bname="b"):
+def sym_history(ops, obj=True, bname="b", mixed=False):
     """Apply the history `ops` (operation kinds; their arguments are fresh symbols) to a context sharing one store,
     then compare with a brand-new context."""
     import strax
 
     _BNAME[0] = bname
+    _MIX[0] = None
 
     da = fresh_int("da"); du = fresh_int("du"); db = fresh_int("db")
     vs = fresh_int("v_src"); vm = fresh_int("v_m1")
     state = dict(da=da, du=du, db=db, vs=vs, vm=vm, cfg={})
+    if mixed:
+        _MIX[0] = du
     fe = tok_frontend()
     st = ctx.make_context([mk_src(da, du, vs, obj), mk_m1(db, vm, vm, obj), mk_t1(obj)], storage=[fe])
     other = None
@@ -248,7 +255,8 @@ def sym_history(ops, obj=True, bname="b"):
         # ---- which keys must change: effective tracked configuration / version of the type or an ancestor
         def eff(s):
             a = s["cfg"].get("a", s["da"]); b = s["cfg"].get(bname, s["db"])
-            return dict(src=(a, s["vs"]), m1=(a, s["vs"], b, s["vm"]), t1=(a, s["vs"], b, s["vm"]))
+            u = s["cfg"].get("u", s["du"]) if mixed else 0  # tracked by m1 in the mixed variant, never by src
+            return dict(src=(a, s["vs"]), m1=(a, s["vs"], b, s["vm"], u), t1=(a, s["vs"], b, s["vm"], u))
         e0, e1 = eff(old), eff(state)
         for d in TYPES:
             same_lineage = sand(*[x == y for x, y in zip(e0[d], e1[d])])
@@ -276,8 +284,10 @@ def nat_history(params, model):
 
     ops = params["ops"]
     bname = _BNAME[0] = params.get("bname", "b")
+    mixed = params.get("mixed", False)
     m = lambda k: int(model.get(k, 0))
     state = dict(da=m("da"), du=m("du"), db=m("db"), vs=m("v_src"), vm=m("v_m1"), cfg={})
+    _MIX[0] = state["du"] if mixed else None
     MemFrontend, _, _ = ctx.make_storage_classes()
     fe = MemFrontend()
     mk = lambda s: [mk_src(s["da"], s["du"], str(s["vs"]), False), mk_m1(s["db"], str(s["vm"]), s["vm"], False), mk_t1(False)]
@@ -288,7 +298,8 @@ def nat_history(params, model):
 
         def eff(s):
             a = s["cfg"].get("a", s["da"]); b = s["cfg"].get(bname, s["db"])
-            return dict(src=(a, s["vs"]), m1=(a, s["vs"], b, s["vm"]), t1=(a, s["vs"], b, s["vm"]))
+            u = s["cfg"].get("u", s["du"]) if mixed else 0
+            return dict(src=(a, s["vs"]), m1=(a, s["vs"], b, s["vm"], u), t1=(a, s["vs"], b, s["vm"], u))
 
         for n, op in enumerate(ops):
             v = m(f"x{n}")
@@ -338,6 +349,7 @@ def sym_fuzzy(kind, obj=True):
     import strax
 
     _BNAME[0] = "b"
+    _MIX[0] = None
     da = fresh_int("da"); db = fresh_int("db"); vm = fresh_int("v_m1")
     da2 = fresh_int("da2"); db2 = fresh_int("db2"); vm2 = fresh_int("v_m12")
     fe = tok_frontend()
@@ -384,6 +396,7 @@ def _setup_tok_only():
 def sym_order():
     """Option insertion order does not change the key."""
     _BNAME[0] = "b"
+    _MIX[0] = None
     x = fresh_int("x"); y = fresh_int("y")
     st1 = ctx.make_context([mk_src(1, 2, 3), mk_m1(4, 5, 5), mk_t1()], storage=[tok_frontend()])
     st2 = ctx.make_context([mk_src(1, 2, 3), mk_m1(4, 5, 5), mk_t1()], storage=[tok_frontend()])
@@ -551,6 +564,9 @@ def _grid(tier):
     for a, b in itertools.product(base[:6], repeat=2):
         if a != b:
             g.append(dict(ops=["make_t1", a, b]))
+    # one option taken by two plugins, untracked in src and TRACKED in m1 (the track flag is per plugin, not per name)
+    for h in (["set_u"], ["make_t1", "set_u"], ["get_m1", "set_u", "get_m1"], ["set_u", "get_t1_ctx2"], ["make_t1", "set_u", "set_a"]):
+        g.append(dict(ops=h, mixed=True))
     # an option named like the data type it configures (legal; the context hash merges both name spaces)
     for h in (["set_b"], ["make_t1", "set_b"], ["get_m1", "set_b", "get_m1"], ["set_b", "get_t1_ctx2"],
               ["make_t1", "reg_m1_default"], ["make_t1", "set_b", "reg_m1_version"]):
